@@ -22,7 +22,8 @@ Transliteration of the Python classes:
   * `lru = true` is class `LRU` (only `__getitem__` differs: a hit moves the link to the
     front), `lru = false` is `LRI`.
 `max` is `max_size`; the constructor rejects `max_size <= 0`.
-`on_miss` is a pure function of the key (it neither raises nor touches the cache).
+`on_miss` is a function of the key that does not touch the cache; it may return a value, raise
+KeyError, or raise some other exception (`OmRes`).
 Every public method body runs under `self._lock`; one `step` = one atomic method call.
 Core Lean only.
 -/
@@ -50,10 +51,18 @@ def dset (k : K) (v : V) : List (K × V) → List (K × V)
 /-- keys of an association list, in order -/
 def keys (l : List (K × V)) : List K := l.map Prod.fst
 
+/-- what a call of `on_miss(key)` does: return a value, raise KeyError (which `get` / `setdefault`
+    swallow like any KeyError), or raise an exception of another class (which propagates) -/
+inductive OmRes (V : Type) where
+  | ret (v : V)
+  | keyError
+  | error
+deriving DecidableEq
+
 structure Cache (K V : Type) where
   lru    : Bool
   max    : Nat
-  onMiss : Option (K → V)
+  onMiss : Option (K → OmRes V)
   d      : List (K × V)
   ring   : List (K × V)
   hit    : Nat
@@ -64,9 +73,16 @@ structure Cache (K V : Type) where
 /-- the state of one cache (name used by the concurrency model C03) -/
 abbrev State (K V : Type) := Cache K V
 
-/-- `LRI(max_size, on_miss=…)` / `LRU(…)` without initial values -/
-def Cache.init (lru : Bool) (max : Nat) (onMiss : Option (K → V)) : Cache K V :=
+/-- `LRI(max_size, on_miss=…)` / `LRU(…)` without initial values; `on_miss` may raise -/
+def Cache.initP (lru : Bool) (max : Nat) (onMiss : Option (K → OmRes V)) : Cache K V :=
   ⟨lru, max, onMiss, [], [], 0, 0, 0, []⟩
+
+/-- an `on_miss` that always returns -/
+def totalOm (f : K → V) : K → OmRes V := fun k => .ret (f k)
+
+/-- the same with an `on_miss` that never raises -/
+def Cache.init (lru : Bool) (max : Nat) (onMiss : Option (K → V)) : Cache K V :=
+  Cache.initP lru max (onMiss.map totalOm)
 
 /-- `_get_link_and_move_to_front_of_ll(key)` followed by `link[VALUE] = v` on a ring that
     has a link for `k` -/
@@ -89,6 +105,7 @@ inductive Out (K V C : Type) where
   | none                         -- the call returns None / is a statement
   | val (v : V)
   | keyError
+  | raised                       -- an exception of another class (raised by on_miss) propagates
   | item (k : K) (v : V)
   | bool (b : Bool)
   | nat (n : Nat)
@@ -104,8 +121,11 @@ def Cache.getitem (c : Cache K V) (k : K) : Cache K V × Out K V (Cache K V) :=
     match c.onMiss with
     | none => ({ c with miss := c.miss + 1 }, .keyError)
     | some f =>
-      (({ c with miss := c.miss + 1, omLog := c.omLog ++ [k] } : Cache K V).setitem k (f k),
-       .val (f k))
+      -- `self.miss_count += 1` happens before `on_miss` is called: a raising on_miss is still a miss
+      match f k with
+      | .ret v => (({ c with miss := c.miss + 1, omLog := c.omLog ++ [k] } : Cache K V).setitem k v, .val v)
+      | .keyError => ({ c with miss := c.miss + 1, omLog := c.omLog ++ [k] }, .keyError)
+      | .error => ({ c with miss := c.miss + 1, omLog := c.omLog ++ [k] }, .raised)
 
 /-- `__delitem__`, and the removal half of `pop` / `popitem`: `dict.__delitem__` then
     `_remove_from_ll` -/
@@ -246,6 +266,7 @@ def Out.shape {C : Type} : Out K V C → Out K V Unit
   | .none => .none
   | .val v => .val v
   | .keyError => .keyError
+  | .raised => .raised
   | .item k v => .item k v
   | .bool b => .bool b
   | .nat n => .nat n
